@@ -223,6 +223,13 @@ def gen(tier, rng):
             yield {"op": "write", "doc": doc, "us": None, "pm": st}
         yield {"op": "parse", "doc": doc, "ps": None, "am": None}
         yield {"op": "write", "doc": doc, "us": None, "pm": None}
+        # the stack arguments are Iterables: tuples, one-shot iterators and generators must work like lists
+        for ct in ("tuple", "iter", "gen"):
+            for st in ([["tag", "1"]], [["tag", "1"], ["vtag", "x"]], []):
+                yield {"op": "parse", "doc": doc, "ps": st, "am": None, "ct": ct}
+                yield {"op": "parse", "doc": doc, "ps": None, "am": st, "ct": ct}
+                yield {"op": "write", "doc": doc, "us": st, "pm": None, "ct": ct}
+                yield {"op": "write", "doc": doc, "us": None, "pm": st, "ct": ct}
         yield {"op": "parse", "doc": doc, "ps": None, "am": [["vtag", "}"]]}
         yield {"op": "write", "doc": doc, "us": None, "pm": [["vtag", "{"]]}
         yield {"op": "parse", "doc": doc, "ps": [], "am": [["tag", "1"]]}
@@ -277,8 +284,19 @@ def request(case):
     return None
 
 
-def _mk(st):
-    return None if st is None else [_probe(s) for s in st]
+def _mk(st, ct="list"):
+    """the stack argument as the container kind `ct`: the parameters are typed Iterable[Middleware], so a
+    tuple, a one-shot iterator or a generator is as legal as a list"""
+    if st is None:
+        return None
+    ms = [_probe(s) for s in st]
+    if ct == "tuple":
+        return tuple(ms)
+    if ct == "iter":
+        return iter(ms)
+    if ct == "gen":
+        return (m for m in ms)
+    return ms
 
 
 class _Capture(Exception):
@@ -290,14 +308,16 @@ def impl(case):
     from bibtexparser import writer
     text = DOCS[case["doc"]]
     if case["op"] == "parse":
-        lib = bibtexparser.parse_string(text, parse_stack=_mk(case["ps"]), append_middleware=_mk(case["am"]))
+        ct = case.get("ct", "list")
+        lib = bibtexparser.parse_string(text, parse_stack=_mk(case["ps"], ct), append_middleware=_mk(case["am"], ct))
         return C.ok(B.enc_blocks(lib.blocks))
     if case["op"] == "write":
         lib = bibtexparser.parse_string(text)
         # capture the library handed to the writer: unparse_stack given -> exactly that stack;
         # prepend given -> prepend + the default AddEnclosing stack (we observe before the default by
         # appending nothing: compare texts instead)
-        us, pm = _mk(case["us"]), _mk(case["pm"])
+        ct = case.get("ct", "list")
+        us, pm = _mk(case["us"], ct), _mk(case["pm"], ct)
         out = bibtexparser.write_string(lib, unparse_stack=us, prepend_middleware=pm)
         # what the model predicts is the library after the requested middlewares; recompute it on the real code
         lib2 = bibtexparser.parse_string(text)
@@ -378,7 +398,8 @@ def oracle(case):
     if case["op"] == "parse":
         ps, am = case["ps"], case["am"]
         try:
-            got = bibtexparser.parse_string(text, parse_stack=_mk(ps), append_middleware=_mk(am))
+            ct = case.get("ct", "list")
+            got = bibtexparser.parse_string(text, parse_stack=_mk(ps, ct), append_middleware=_mk(am, ct))
             got = ("ok", enc(B.enc_blocks(got.blocks)))
         except (ValueError, TypeError) as e:
             got = ("raise", type(e).__name__)
